@@ -3,7 +3,9 @@
 A scenario is a list of independent call lines (see harness/models/math.py).  Every public
 function of the static table harness/math_api.py is called: the polynomial ones exactly on
 rationals (`call`), the ones through sqrt/sin/cos/atan2 exactly under the stand-in
-interpretation (`callx`, translator validation) and - when the property names them - on floats
+interpretation (`callx`, translator validation), the polynomial ones also on the EXACT DOMAIN
+(`calle`: genuine Python ints beyond 2**53 and Fractions with non-dyadic denominators, mixed,
+nothing converted - value and float contamination are judged) and - when the property names them - on floats
 of magnitude 1e-3..1e3 (`callf`, tolerance test).  Edge inputs: zeros, negatives, zero vectors,
 singular / near-singular / sparse matrices, degenerate projection boxes, `limit` thresholds next to
 the vector's length, every attribute string of length 0..5 over `xyzw` plus foreign letters.
@@ -120,17 +122,58 @@ def float_args_for(rng, name):
     return out
 
 
+# functions whose `/` would be Python's int / int (a float by the language) on int arguments: their
+# exact domain is the Fractions
+DIV_OPS = ('truediv', 'invert', 'orthogonal_projection')
+NON_DYADIC = [3, 7, 9, 10, 11, 13, 6, 15]
+
+
+def exact_scalar(rng, allow_int):
+    """Token of an exact-domain argument: `n/d` = Fraction, bare integer = Python int."""
+    r = rng.random()
+    if r < 0.5:
+        d = rng.choice(NON_DYADIC)
+        n = rng.choice([k for k in range(-40, 41) if k % d])
+        return f'{n}/{d}'
+    if r < 0.7:                       # beyond 2**53: not representable as a float
+        v = rng.choice([-1, 1]) * (2 ** rng.choice([53, 54, 60, 64]) + rng.choice([1, 3, 5, 7, 11]))
+    elif r < 0.9:
+        v = rng.randint(-12, 12)
+    else:
+        return f'{rng.randint(-15, 15)}/{rng.choice([2, 4, 8])}'
+    return str(v) if allow_int and rng.random() < 0.6 else f'{v}/1'
+
+
+def exact_args_for(rng, name):
+    e = API[name]
+    allow_int = name.partition('.')[2] not in DIV_OPS
+    n = sum(KIND_LEN[k] for _, k in e.params)
+    if rng.random() < 0.35:           # the structured inputs of the rational run (singular matrices ...)
+        out = []
+        for x in args_for(rng, name):
+            if x.denominator == 1 and allow_int and rng.random() < 0.5:
+                out.append(str(x.numerator))
+            else:
+                out.append(f'{x.numerator}/{x.denominator}')
+        return out
+    return [exact_scalar(rng, allow_int) for _ in range(n)]
+
+
 def call_lines(rng, reps):
     """`reps` calls of every function and mode, shuffled."""
     jobs = []
     for name, e in API.items():
         jobs += [('callx' if e.tr else 'call', name)] * reps
+        if not e.tr:
+            jobs += [('calle', name)] * reps
         if e.tr and e.named and name.partition('.')[2] in FLOAT_OPS:
             jobs += [('callf', name)] * reps
     rng.shuffle(jobs)
     for mode, name in jobs:
         if mode == 'callf':
             yield f'callf {name} ' + ' '.join(repr(x) for x in float_args_for(rng, name))
+        elif mode == 'calle':
+            yield (f'calle {name} ' + ' '.join(exact_args_for(rng, name))).rstrip()
         else:
             yield (f'{mode} {name} ' + ' '.join(str(x) for x in args_for(rng, name))).rstrip()
 
